@@ -59,6 +59,42 @@ def gen_cases(chk):
     return cases
 
 
+def py_rowmajor(sizes, c):
+    idx = 0
+    for k in range(len(sizes)):
+        t = c[k]
+        for l in range(k + 1, len(sizes)):
+            t *= sizes[l]
+        idx += t
+    return idx
+
+
+def py_interleave(c):
+    n = len(c)
+    b = 64 // n
+    r = 0
+    for i in range(b):
+        for j in range(n):
+            r |= ((c[j] >> i) & 1) << (i * n + j)
+    return r
+
+
+def py_hilbert(n, x, y):
+    # en.wikipedia.org/wiki/Hilbert_curve xy2d
+    d = 0
+    s = n // 2
+    while s > 0:
+        rx = 1 if (x & s) else 0
+        ry = 1 if (y & s) else 0
+        d += s * s * ((3 * rx) ^ ry)
+        if ry == 0:
+            if rx == 1:
+                x, y = n - 1 - x, n - 1 - y
+            x, y = y, x
+        s //= 2
+    return d
+
+
 def run(replay=None):
     chk = core.Check('C14', 'proof')
     chk.cov['rule'] = ('row-major: every coordinate of every box with extents <= 4 (N <= 3; <= 3 for N = 4) at size_t and a third of them at unsigned/int/long, '
@@ -94,9 +130,14 @@ def run(replay=None):
             n = a[1]
             coords = a[2 + n:]
             chk.count_case((kind,) + a, any(coords))
+            spec_py = str(py_rowmajor(a[2:2 + n], coords))
             if m is None:
-                continue
-            gen, gdbg, gcopy, spec = m.split()
+                gen = gdbg = gcopy = spec = spec_py
+            else:
+                gen, gdbg, gcopy, spec = m.split()
+                if spec != spec_py:
+                    chk.obligation_broken(f'Coq rowmajor vs independent oracle on {a}', f'{spec} vs {spec_py}')
+                    spec = spec_py
             for cfg in impl:
                 v = impl[cfg].get(id_)
                 if v != spec:
@@ -110,9 +151,14 @@ def run(replay=None):
             n = a[1]
             coords = a[2:]
             chk.count_case((kind,) + a, any(coords))
+            spec_py = str(py_interleave(coords))
             if m is None:
-                continue
-            gen, gbmi, spec = m.split()
+                gen = gbmi = spec = spec_py
+            else:
+                gen, gbmi, spec = m.split()
+                if spec != spec_py:
+                    chk.obligation_broken(f'Coq interleave vs independent oracle on {a}', f'{spec} vs {spec_py}')
+                    spec = spec_py
             for cfg in impl:
                 v = impl[cfg].get(id_)
                 if v != spec:
@@ -125,11 +171,17 @@ def run(replay=None):
         elif kind == 'hidx':
             chk.count_case((kind,) + a, a[2] or a[3])
             gen = None
-            if m is not None:
+            m_py = str(py_hilbert(a[0], a[2], a[3]))
+            if m is None:
+                m = m_py
+            else:
                 gen, m = m.split()
-                if gen != m and nd < 10:
-                    nd += 1
-                    chk.obligation_broken(f'correspondence gen_hilbert_index vs Hl on {a}', f'generated kernel {gen}, spec {m}')
+                if m != m_py:
+                    chk.obligation_broken(f'Coq Hl vs independent oracle on {a}', f'{m} vs {m_py}')
+                    m = m_py
+            if gen is not None and gen != m and nd < 10:
+                nd += 1
+                chk.obligation_broken(f'correspondence gen_hilbert_index vs Hl on {a}', f'generated kernel {gen}, spec {m}')
             for cfg in impl:
                 v = impl[cfg].get(id_)
                 htab.setdefault((cfg, a[0]), {})[(a[2], a[3])] = v
